@@ -3,11 +3,12 @@
    Z/N/positive/nat stay Coq datatypes.  No Extract Constant / Extract Inductive of our own. *)
 Require Extraction.
 Require Import ExtrOcamlBasic.
-From Verif Require Import Lib.Bytes Model.IPRange Model.Path Model.Fs Model.Session.
+From Verif Require Import Lib.Bytes Model.IPRange Model.Path Model.Fs Model.Session Model.IsoRead.
 
 Extraction Language OCaml.
 Extraction "model.ml"
   IPRange.parse_range IPRange.contains IPRange.find_sep
   Path.rooted_elems Path.render
   Fs.get_inode Fs.walk Fs.sort_names
+  IsoRead.iso_run IsoRead.iso_read
   Session.serve_all Session.step Session.parse_request Session.held.
